@@ -1,0 +1,11 @@
+//go:build verif
+
+package block
+
+// Verification hooks (build tag verif): access to unexported functions, no logic.
+
+// VerifSetMiningBlob calls the unexported setMiningBlob, so that it can be exercised in every build
+// configuration (SetMiningBlob panics in the masterchain configuration).
+func (b *Block) VerifSetMiningBlob(m MiningBlob) error {
+	return b.setMiningBlob(m)
+}
